@@ -1,11 +1,14 @@
+\* One of the exhaustive configurations of the quick tier (checks/c13.py writes the full list,
+\* each split by kind of exchange; see notes/C13.md).  Usable stand-alone:
+\*   tlc -config MC_XfrInbound_quick.cfg MC_XfrInbound.tla
 SPECIFICATION Spec
 CONSTANTS
   Contents <- CSmall
-  SerialSeqs <- SS12
-  MaxSteps = 2
+  SerialSeqs <- SS2
+  MaxSteps = 1
   Kinds <- AllKinds
   FaultKinds <- AllFaults
-  MaxCuts = 1
+  MaxCuts = 2
   QModes = {"first"}
   Revs = {FALSE}
 INVARIANT TypeOK
